@@ -1,6 +1,7 @@
 package props
 
 import (
+	"encoding/binary"
 	"encoding/json"
 	"flag"
 	"fmt"
@@ -83,6 +84,10 @@ var rapidMu sync.Mutex
 // VERIF_SEED; rapid's own fail files are disabled (the recorder writes replay files).
 func runRapid(t *testing.T, checks int, salt uint64, prop func(*rapid.T)) {
 	t.Helper()
+	if captureMode {
+		captured = append(captured, prop)
+		return
+	}
 	rapidMu.Lock()
 	defer rapidMu.Unlock()
 	flag.Set("rapid.checks", strconv.Itoa(checks))
@@ -94,6 +99,80 @@ func runRapid(t *testing.T, checks int, salt uint64, prop func(*rapid.T)) {
 		flag.Set("rapid.shrinktime", "15s")
 	}
 	rapid.Check(t, prop)
+}
+
+// ---------------------------------------------------------------------------------------
+// coverage-guided search over the same generators (thorough tier): a native fuzz target per rapid property.
+//
+// fuzzRapid runs the Test function once in "capture mode" - runRapid then hands its property closure over instead of
+// running it, finish / requireLabels do nothing - and feeds every fuzz input to that closure through rapid.MakeFuzz
+// (the bytes become the generator's random draws, 8 bytes per draw; inputs that run out of bytes are skipped). The
+// generated cases are therefore exactly the domain of the rapid test, the oracle is the same checkCNN, and a
+// violation carries the replay kind and the case in its message (evid.FuzzMode).
+
+var (
+	captureMode bool
+	captured    []func(*rapid.T)
+)
+
+func fuzzRapid(f *testing.F, test func(*testing.T), idx int) {
+	// corpus: 48 seed words (content of the corpus, not a source of randomness of the check: the fuzzer mutates from
+	// here and cannot be pinned to a seed anyway)
+	x := uint64(0x9e3779b97f4a7c15)
+	for k := 0; k < 48; k++ {
+		x ^= x << 13
+		x ^= x >> 7
+		x ^= x << 17
+		b := make([]byte, 8)
+		binary.LittleEndian.PutUint64(b, x)
+		f.Add(b)
+	}
+	var once sync.Once
+	var prop func(*testing.T, []byte)
+	f.Fuzz(func(t *testing.T, data []byte) {
+		once.Do(func() {
+			captureMode, evid.FuzzMode = true, true
+			captured = nil
+			test(t)
+			if idx >= len(captured) {
+				t.Fatalf("HARNESS-ERROR %d rapid properties captured, wanted index %d", len(captured), idx)
+			}
+			prop = rapid.MakeFuzz(captured[idx])
+		})
+		if len(data) > 1<<16 {
+			t.Skip()
+		}
+		prop(t, expandDraws(data))
+	})
+}
+
+const fuzzDraws = 16384
+
+// expandDraws turns a fuzz input into the generator's draw sequence (8 bytes per draw): the first 8 bytes seed a
+// fixed xorshift sequence of fuzzDraws words, and the rest of the input is XOR-ed over the front of it. Every input
+// is therefore a complete case, a short input is a whole random case of its own (a mutated seed word is a new case),
+// and a longer input edits single draws of the case its seed word stands for - which is what lets the fuzzer keep
+// and refine the inputs that reached new code. A pure function of the input: a saved crasher replays.
+func expandDraws(data []byte) []byte {
+	var seed [8]byte
+	copy(seed[:], data)
+	x := binary.LittleEndian.Uint64(seed[:]) | 1
+	out := make([]byte, 8*fuzzDraws)
+	for i := 0; i < fuzzDraws; i++ {
+		x ^= x << 13
+		x ^= x >> 7
+		x ^= x << 17
+		binary.LittleEndian.PutUint64(out[8*i:], x*0x2545f4914f6cdd1d)
+	}
+	if len(data) > 8 {
+		for i, b := range data[8:] {
+			if i >= len(out) {
+				break
+			}
+			out[i] ^= b
+		}
+	}
+	return out
 }
 
 // ---------------------------------------------------------------------------------------
@@ -193,6 +272,9 @@ func TestReplay(t *testing.T) {
 
 func finish(t *testing.T, rec *evid.Recorder) {
 	t.Helper()
+	if captureMode {
+		return
+	}
 	rec.Flush()
 	if v := rec.Violations(); len(v) > 0 {
 		t.Errorf("%s: %d violation signature(s): %s", rec.Test, len(v), strings.Join(v, ", "))
@@ -203,6 +285,9 @@ func finish(t *testing.T, rec *evid.Recorder) {
 // design calls out was never generated.
 func requireLabels(t *testing.T, rec *evid.Recorder, labels ...string) {
 	t.Helper()
+	if captureMode {
+		return
+	}
 	var missing []string
 	for _, l := range labels {
 		if rec.LabelCount(l) == 0 {
